@@ -11,8 +11,8 @@ VARIANTS = [
          old="        with self._lock:\n            return self._get_trial(trial_id)\n",
          new="        return self._get_trial(trial_id)\n"),
     dict(id="c03-inmem-unlock-set_user_attr", prop="C03", file=IM, expect="R03.1",
-         old="        with self._lock:\n            self._check_study_id(study_id)\n\n            self._studies[study_id].user_attrs[key] = value\n",
-         new="        if True:\n            self._check_study_id(study_id)\n\n            self._studies[study_id].user_attrs[key] = value\n"),
+         old="        with self._lock:\n            self._check_study_id(study_id)\n\n            study = self._studies[study_id]\n            study.user_attrs = {**study.user_attrs, key: value}\n",
+         new="        if True:\n            self._check_study_id(study_id)\n\n            study = self._studies[study_id]\n            study.user_attrs = {**study.user_attrs, key: value}\n"),
     dict(id="c03-inmem-number-outside-lock", prop="C03", file=IM, expect="R03.1",
          old="        with self._lock:\n            self._check_study_id(study_id)\n\n            if template_trial is None:",
          new="        n_before = len(self._studies[study_id].trials)\n        with self._lock:\n            self._check_study_id(study_id)\n\n            if template_trial is None:"),
